@@ -12,8 +12,12 @@ def row(k, v, what):
     for c in caught:
         cls += ['%s: %s' % (c, ch[c]['classes'][0])] if ch[c]['classes'] else []
     suite = 'same' if v.get('suite_same_as_baseline') else 'FAILS'
+    ng = v.get('no_git_copy_run')
+    extra = ''
+    if ng and ng.get('verdict') != v.get('verdict'):
+        extra = ' (%s without git metadata)' % ng.get('verdict')
     return '| %s | %s | %s | %s | %s | %s |' % (k.split('/', 1)[1], what, suite, ', '.join(caught) or '-',
-                                             ', '.join(silent) or '-', v.get('verdict', '?') + (' (harness error in %s)' % ','.join(sick) if sick else ''))
+                                             ', '.join(silent) or '-', v.get('verdict', '?') + extra + (' (harness error in %s)' % ','.join(sick) if sick else ''))
 print('| change | what it is | suite | caught by | silent | verdict |')
 print('|---|---|---|---|---|---|')
 for k in sorted(rep):
